@@ -110,6 +110,7 @@ Proof.
     [cbn; auto|].
   destruct (match sec_group (g_sec g) with Some u => negb (node_gid n =? u) | None => false end);
     [cbn; auto|].
+  destruct (perm_refusal (g_sec g) t path n); [cbn; auto|].
   cbv beta iota zeta. cbn [negb].
   destruct (fs_slurp 8 t path) as [content|]; [|cbn; auto].
   destruct (r_err (read_bytes o dl cm content)); cbn; auto.
@@ -264,6 +265,7 @@ Proof.
     [cbn; discriminate|].
   destruct (match sec_group (g_sec g) with Some u => negb (node_gid n =? u) | None => false end);
     [cbn; discriminate|].
+  destruct (perm_refusal (g_sec g) t p n); [cbn; discriminate|].
   destruct (match cb with Some f => (f p, [EvCheck p (f p)]) | None => (true, []) end) as [ok evs].
   destruct (negb ok); [cbn; discriminate|].
   destruct (fs_slurp 8 t p) as [content|]; [|cbn; discriminate].
